@@ -141,7 +141,8 @@ def explore(ctx, specs, monitor_fns, sampler=None):
                 # (runs with state writes as scheduling points are judged by the monitors only: there the
                 #  linearisation point of an operation is its status write, not the log record written
                 #  when the call returns, so the recorded order is not the model's)
-                vb = [(i, r) for i, r in enumerate(batch) if not r.spec.get('nonthreaded') and not r.spec.get('state_write_yield')]
+                vb = [(i, r) for i, r in enumerate(batch) if not r.spec.get('nonthreaded') and not r.spec.get('state_write_yield')
+                      and not r.spec.get('submit_yield')]
                 if vb:
                     rej0, out, spans = validate_batch([r for _, r in vb])
                     rej = {vb[j][0]: v for j, v in rej0.items()}
